@@ -110,8 +110,8 @@ VARIANTS = {
                      "-fno-omit-frame-pointer"], "a"),
     "msan": ("clang", ["-O1", "-g", "-fsanitize=memory", "-fno-omit-frame-pointer"], "a"),
     "tsan": ("clang", ["-O1", "-g", "-fsanitize=thread"], "a"),
-    "pic":  ("gcc", ["-O2", "-g0", "-fPIC"], "so-plain"),
-    "hook": ("gcc", ["-O1", "-g0", "-fPIC", "-fsanitize=thread", "-fno-builtin"], "so-plain"),
+    "pic":  ("gcc", ["-O2", "-g0", "-fPIC", "-DPIC"], "so-open"),
+    "hook": ("gcc", ["-O1", "-g0", "-fPIC", "-DPIC", "-fsanitize=thread", "-fno-builtin"], "so-open"),
     "so":   ("gcc", ["-O2", "-g0", "-fPIC", "-DPIC"], "so-versioned"),
 }
 
@@ -164,9 +164,15 @@ def build_variant(name, hashes=None, tag=None):
             os.unlink(lib)
         run(["ar", "rcs", lib] + objs)
         info["lib"] = lib
-    elif kind == "so-plain":
+    elif kind == "so-open":
+        # the versioned shared library (compat symbols included) with its internal symbols left visible:
+        # the tree's version script minus the 'local: *;' catch-all
         lib = os.path.join(vdir, "libxc.so")
-        run([cc, "-shared", "-o", lib] + objs + ["-Wl,-z,relro", "-Wl,-z,now"])
+        mp = open(os.path.join(gendir, "libcrypt.map")).read()
+        mp = re.sub(r"local:\s*\*;", "", mp)
+        omap = os.path.join(vdir, "open.map")
+        open(omap, "w").write(mp)
+        run([cc, "-shared", "-o", lib] + objs + ["-Wl,--version-script=" + omap, "-Wl,-z,relro", "-Wl,-z,now"])
         info["lib"] = lib
     elif kind == "so-versioned":
         lib = os.path.join(vdir, "libcrypt.so.1")
